@@ -80,6 +80,9 @@ func (c08) RunBatch(ctx *core.Ctx, batch int) {
 				b.WriteString(c08Alphabet[r.Intn(len(c08Alphabet))])
 			}
 			c08String(ctx, "random", b.String())
+			if i%2 == 0 {
+				c08String(ctx, "random-class", gen.RandString(r))
+			}
 		}
 		_ = rand.Int
 	}
